@@ -54,6 +54,19 @@ def field_reads(ctx, node, field):
     return out
 
 
+def _sharing_logic_read(f, x):
+    """The flag is only consulted to decide whether to copy: it is the test of an if/conditional whose true branch makes a
+    fresh copy (`._copy()`), or it sits in an assert."""
+    for n in own_walk(f.node):
+        if isinstance(n, ast.Assert) and any(x is y for y in ast.walk(n.test)):
+            return True
+        if isinstance(n, (ast.If, ast.IfExp)) and any(x is y for y in ast.walk(n.test)):
+            body = n.body if isinstance(n.body, list) else [n.body]
+            if any(isinstance(y, ast.Call) and isinstance(y.func, ast.Attribute) and y.func.attr in ('_copy',) for b in body for y in ast.walk(b)):
+                return True
+    return False
+
+
 def rule_J1(ctx):
     """Per-object state is closed (slots), and each field is read only where its role allows."""
     m = ctx.m
@@ -87,6 +100,8 @@ def rule_J1(ctx):
                     pass
                 if root.cls in classes or ctx.rk(root.key) in table:
                     r.ok(f'{f.key}:{field}', reason=ctx.rk(root.key) in table)
+                elif field == 'immutable' and _sharing_logic_read(f, x):
+                    r.ok(f'{f.key}:{field}', {'instance': f.key, 'read': norm(x), 'verdict': 'test of a copy-if-flagged / assert (sharing logic)'})
                 else:
                     r.fail(f.key, x, f"reads '{field}', which only {sorted(classes) or sorted(table)} may consult: the result of this "
                            f"code now depends on {'the stream position' if field == '_pos' else 'the raw buffer (pad bits, endianness, bits beyond the logical length)' if field == '_bitarray' else 'how the object was built or shared'}",
